@@ -102,7 +102,7 @@ def committed_view(cluster, tp):
 
 
 async def open_producer(cluster, tid="tx", **over):
-    kw = dict(bootstrap_servers="h0:9092", transactional_id=tid, request_timeout_ms=1000, retry_backoff_ms=50,
+    kw = dict(bootstrap_servers=["h0:9092", "h1:9092"], transactional_id=tid, request_timeout_ms=1000, retry_backoff_ms=50,
               linger_ms=0, transaction_timeout_ms=60000)
     kw.update(over)
     p = AIOKafkaProducer(**kw)
